@@ -48,6 +48,39 @@ def build(tier, seed):
     return text, hs
 
 
+SERDE_SRC = "c19_serde.rs"
+SERDE_TUPLES_QUICK = [(5,), (0, 5), (3, 4), (9, 1), (0, 1), (4, 9)]
+
+
+def build_serde(tier, seed):
+    text = open(os.path.join(VERIF, "kani", SERDE_SRC)).read()
+    hs = []
+    tw = Harness("c19_serde_twin_must_fail", bounds="vacuity twin (serde)", expect="fail", timeout=900, group="c19_serde")
+    tw.group_file = SERDE_SRC
+    hs.append(tw)
+    tuples = list(SERDE_TUPLES_QUICK)
+    if tier == "thorough":
+        tuples += [t for t in itertools.product(A, repeat=2) if t not in tuples] + [(0, 3, 9), (1, 4, 5), (9, 5, 0), (3, 4, 9)]
+    for t in tuples:
+        name = "c19_ser_" + "_".join(str(x) for x in t)
+        text += "\n#[kani::proof]\n#[kani::unwind(16)]\nfn %s() {\n    ser_case::<%d>([%s]);\n}\n" % (name, len(t), ", ".join(str(x) for x in t))
+        h = Harness(name, bounds="Mapping::default() with inserts on keys %s (symbolic values), each key then symbolically kept or unset; real Serialize impl into an in-memory sequence: position i holds get(i), every stored id is inside the sequence" % list(t),
+                    symbolic=["values", "which keys are unset before serialising"], enumerated=["key tuple %s" % list(t)],
+                    min_covers=2, timeout=1200, mem_gb=16, group="c19_ser", instance={"family": "serialize", "keys": list(t)})
+        h.group_file = SERDE_SRC
+        hs.append(h)
+    for n in ((1, 2) if tier == "quick" else (1, 2, 3, 4)):
+        name = "c19_de_%d" % n
+        text += "\n#[kani::proof]\n#[kani::unwind(16)]\nfn %s() {\n    de_case::<%d>();\n}\n" % (name, n)
+        h = Harness(name, bounds="a serialised sequence of %d optional u32 (presence and values symbolic: holes anywhere) through the real Deserialize impl: get(i) equals position i for every i, len counts the present entries" % n,
+                    symbolic=["presence of each position", "values"], enumerated=["sequence length %d" % n],
+                    min_covers=2, timeout=5400, mem_gb=16, group="c19_de", instance={"family": "deserialize", "len": n},
+                    extra_args=["-Z", "unstable-options", "--cbmc-args", "--paths", "lifo"])
+        h.group_file = SERDE_SRC
+        hs.append(h)
+    return text, hs
+
+
 def functions():
     m = "src/internal/mapping.rs"
     return [
@@ -59,6 +92,8 @@ def functions():
         source_lines(m, r"pub fn len\(", r"pub\(crate\) fn max"),
         source_lines(m, r"pub fn iter\(", r"^}"),
         source_lines(m, r"impl<'a, TId: ArenaId, TValue> Iterator for MappingIter", r"^}"),
+        source_lines(m, r"impl<K: ArenaId, V: serde::Serialize> serde::Serialize for Mapping", r"^}"),
+        source_lines(m, r"impl<'de, K: ArenaId, V: serde::Deserialize<'de>> serde::Deserialize<'de> for Mapping", r"^}"),
     ]
 
 
@@ -68,6 +103,7 @@ ASSUMPTIONS = [
     "keys are enumerated from the alphabet {0,1,3,4,5,9} (a symbolic key makes the chunk-vector length symbolic, DESIGN P6); values and operation kinds are symbolic",
     "instantiation Mapping<NameId, u32> only",
     "get_mut/get_unchecked/size_in_bytes/slots/capacity are not asserted on",
+    "serde kernel: the crate is compiled with --features serde; the real Serialize/Deserialize impls of Mapping are driven by a minimal in-memory Serializer/Deserializer written in the harness (a bounded sequence of Option<u32>); JSON text and serde_json are outside the claim",
     "the mapping is leaked at the end of each harness (drop glue not part of the claim)",
 ]
 RULE = ("one evaluation = one CBMC property decided SUCCESS in a SUCCESSFUL harness; harness instances are all K-tuples over the key alphabet x "
@@ -76,8 +112,10 @@ RULE = ("one evaluation = one CBMC property decided SUCCESS in a SUCCESSFUL harn
 
 def run(tier, seed, only):
     text, hs = build(tier, seed)
-    return run_incrate(PROP, tier, seed, only, [Attach(SRC, HOST, "verif_c19", text=text)], hs, functions(), ASSUMPTIONS,
-                       [], RULE, scalings=[MAPPING_SCALE], jobs=12)
+    stext, shs = build_serde(tier, seed)
+    return run_incrate(PROP, tier, seed, only, [Attach(SRC, HOST, "verif_c19", text=text), Attach(SERDE_SRC, HOST, "verif_c19_serde", text=stext)],
+                       hs + shs, functions(), ASSUMPTIONS, [], RULE, scalings=[MAPPING_SCALE], jobs=12,
+                       package_args=["--features", "serde"])
 
 
 def replay(path):
@@ -85,4 +123,6 @@ def replay(path):
     t2, _ = build("quick", 0)
     # both tiers' instances (names are disjoint by arity)
     text = text + t2.split("// ---- generated instances follow")[1]
-    return replay_incrate(PROP, path, [Attach(SRC, HOST, "verif_c19", text=text)], scalings=[MAPPING_SCALE])
+    stext, _ = build_serde("thorough", 0)
+    return replay_incrate(PROP, path, [Attach(SRC, HOST, "verif_c19", text=text), Attach(SERDE_SRC, HOST, "verif_c19_serde", text=stext)],
+                          scalings=[MAPPING_SCALE], package_args=["--features", "serde"])
